@@ -89,6 +89,12 @@ type c13Field struct {
 	keys [4]string // effective document key per format
 	node *c13Node
 	skip bool // dials:"-"
+	// foreign: the field also carries a tag of some other library whose key
+	// ends in json/yaml/toml; foreignAlone: and no real tag of that format
+	foreign, foreignAlone bool
+	// lookalike[k]: a look-alike tag for json (0, also Cue), yaml (1), toml (2)
+	// and no real tag of that format
+	lookalike [3]bool
 	// embedded: an anonymous struct (or *struct) field; with its dials tag
 	// it is a named member of the document, not a promoted one
 	embedded bool
@@ -204,6 +210,7 @@ type c13SchemaGen struct {
 	hasSet         bool
 	hasOwnTag      bool
 	hasEmbedded    bool
+	hasForeign     bool
 	inElem         int // > 0 while generating the element type of a []struct
 }
 
@@ -401,6 +408,20 @@ func (g *c13SchemaGen) structNode(depth int) *c13Node {
 				parts = append(parts, fmt.Sprintf("%s:%q", nm, f.own[k]))
 			}
 		}
+		// tags of other libraries whose key merely ENDS in a format's name
+		// (geojson, goyaml, legacytoml, ...): not a tag of that format, so
+		// the dials tag still names the key
+		for k, names := range c13ForeignTags {
+			if r.Chance(12) {
+				f.foreign = true
+				g.hasForeign = true
+				if f.own[k] == "" {
+					f.foreignAlone = true
+					f.lookalike[k] = true
+				}
+				parts = append(parts, fmt.Sprintf("%s:%q", fw.Pick(r, names), fw.Pick(r, c13ForeignValues)))
+			}
+		}
 		p := r.Perm(len(parts))
 		tagParts := make([]string, len(parts))
 		for a, b := range p {
@@ -518,6 +539,17 @@ func c13SchemaFromType(t reflect.Type) *c13Node {
 			for k, nm := range []string{"json", "yaml", "toml", "cue"} {
 				f.own[k] = sf.Tag.Get(nm)
 			}
+			for k, names := range c13ForeignTags {
+				for _, nm := range names {
+					if _, ok := sf.Tag.Lookup(nm); ok {
+						f.foreign = true
+						if f.own[k] == "" {
+							f.foreignAlone = true
+							f.lookalike[k] = true
+						}
+					}
+				}
+			}
 			for fm := c13JSON; fm <= c13Cue; fm++ {
 				f.keys[fm] = dk
 			}
@@ -595,4 +627,26 @@ func c13HasSet(n *c13Node) bool {
 
 func (n *c13Node) elemIsTextStruct() bool {
 	return n.kind == c13Slice && n.elem.kind == c13Time
+}
+
+// c13ForeignTags are struct-tag keys of other libraries that end in the name
+// of a format (index 0 json - also read by the Cue decoder -, 1 yaml, 2 toml).
+var c13ForeignTags = [3][]string{
+	{"geojson", "hjson", "bjson", "myjson"},
+	{"goyaml", "myyaml", "xyaml"},
+	{"legacytoml", "oldtoml", "xtoml"},
+}
+
+var c13ForeignValues = []string{"x", "Point", "geo,omitempty", "-", "legacy_name", "someOtherKey", ",inline", "a-b"}
+
+// lookalikeFor reports whether the field carries a look-alike foreign tag for
+// the tag name format fm reads, and no real one.
+func (f *c13Field) lookalikeFor(fm c13Fmt) bool {
+	switch fm {
+	case c13JSON, c13Cue:
+		return f.lookalike[0]
+	case c13YAML:
+		return f.lookalike[1]
+	}
+	return f.lookalike[2]
 }
